@@ -163,6 +163,10 @@ def check(ctx):
     except mir.AnchorLost as e:
         ctx.fail("C06.b", "anchor-lost:EntityReactors::remove", "", str(e))
 
+    # ---- C06.g the reactor tables are edited only by registration, revocation and despawn scheduling (who-writes table) ----
+    import writers
+    nwr = writers.check(ctx, "C06.g", ["ReactCache", "ComponentReactors", "EntityReactors"])
+    ctx.notes.append("who-writes table: %d reactor-table fields with pinned writers checked" % nwr)
     # ---- C06.f a table entry is deleted only when every list in it is empty ----
     entry_removal_guarded(ctx, prog, path_fns)
 
